@@ -324,6 +324,12 @@ class Model:
         self._bind(u, w)
         return OK_NONE
 
+    def _w_file(self, op):
+        _, w, u = op
+        if w not in self.W or u not in self.U:
+            return SKIP
+        return OK_NONE  # where a law set is filed says nothing about what it governs
+
     def _set_applies(self, op):
         _, w, u = op
         if w not in self.W or (u is not None and u not in self.U):
